@@ -471,7 +471,8 @@ Section Exec.
       repeat split; simpl; auto.
   Qed.
 
-  Lemma antecedents_hold_eq g g' s : ggeq g g' -> antecedents_hold dom eps g' s = antecedents_hold dom eps g s.
+  Lemma antecedents_hold_eq objs g g' s :
+    ggeq g g' -> antecedents_hold dom eps objs g' s = antecedents_hold dom eps objs g s.
   Proof.
     intros [_ [_ Ha]]. unfold antecedents_hold.
     destruct (gg_ante g) as [a|], (gg_ante g') as [a'|]; simpl in Ha; try contradiction; [apply Ha|reflexivity].
@@ -480,15 +481,15 @@ Section Exec.
   Lemma apply_group_eq g g' prev cur : ggeq g g' -> apply_group_m prev cur g' = apply_group_m prev cur g.
   Proof. intros [Hd [Hn _]]. unfold apply_group_m. rewrite Hd, Hn. reflexivity. Qed.
 
-  Definition fire (skip : bool) (prev cur : state) (g : ggroup) : result state :=
-    do h <- (if skip then Ok true else antecedents_hold dom eps g prev);
+  Definition fire (objs : option objects) (skip : bool) (prev cur : state) (g : ggroup) : result state :=
+    do h <- (if skip then Ok true else antecedents_hold dom eps objs g prev);
     if h then apply_group_m prev cur g else Ok cur.
 
-  Lemma fire_eq skip prev cur g g' : ggeq g g' -> fire skip prev cur g' = fire skip prev cur g.
+  Lemma fire_eq objs skip prev cur g g' : ggeq g g' -> fire objs skip prev cur g' = fire objs skip prev cur g.
   Proof.
-    intros H. unfold fire. rewrite (antecedents_hold_eq g g' prev H).
+    intros H. unfold fire. rewrite (antecedents_hold_eq objs g g' prev H).
     destruct skip; simpl; [apply apply_group_eq; exact H|].
-    destruct (antecedents_hold dom eps g prev) as [[|]|k]; simpl; [apply apply_group_eq; exact H|reflexivity|reflexivity].
+    destruct (antecedents_hold dom eps objs g prev) as [[|]|k]; simpl; [apply apply_group_eq; exact H|reflexivity|reflexivity].
   Qed.
 
   (* ---------- lists ---------- *)
@@ -570,8 +571,8 @@ Section Exec.
     simpl option_map in Hgr. unfold rename_condeff. simpl ce_ante. simpl ce_disc. simpl ce_num.
     destruct (ground_group dom (dset (ga_pm ga) (ue_var ue) (fst o)) _ _ _) as [g|k],
              (ground_group dom (dset (ga_pm ga') (ue_var ue) (fst o)) _ _ _) as [g'|k']; simpl in Hgr; try contradiction.
-    - simpl. rewrite (antecedents_hold_eq g g' prev Hgr).
-      destruct (antecedents_hold dom eps g prev) as [[|]|k]; simpl; [apply apply_group_eq; exact Hgr|reflexivity|reflexivity].
+    - simpl. rewrite (antecedents_hold_eq (Some os) g g' prev Hgr).
+      destruct (antecedents_hold dom eps (Some os) g prev) as [[|]|k]; simpl; [apply apply_group_eq; exact Hgr|reflexivity|reflexivity].
     - simpl. rewrite Hgr. reflexivity.
   Qed.
 
@@ -583,8 +584,8 @@ Section Exec.
     rewrite (Hpre objs prev).
     destruct (if skip then Ok true else eval_g dom eps objs prev (ga_pre ga)) as [okb|k]; simpl; [|reflexivity].
     destruct (negb okb && negb allow); [reflexivity|].
-    assert (Hfold : foldM (fun cur g => fire skip prev cur g) (reorder (ga_groups ga') order) prev =
-                    foldM (fun cur g => fire skip prev cur g) (reorder (ga_groups ga) order) prev).
+    assert (Hfold : foldM (fun cur g => fire objs skip prev cur g) (reorder (ga_groups ga') order) prev =
+                    foldM (fun cur g => fire objs skip prev cur g) (reorder (ga_groups ga) order) prev).
     { apply (foldM_rel ggeq); [apply reorder_Forall2; exact Hgroups|].
       intros c x x' Hx. apply fire_eq. exact Hx. }
     unfold fire in Hfold. rewrite Hfold.
